@@ -25,6 +25,7 @@ Compositions: amend (exp, matrix, pytree split, amend twice), LikelihoodSum of
 pairs, freeze of every proper subset of the latent keys.
 """
 import itertools
+import os
 
 import numpy as np
 
@@ -867,7 +868,8 @@ def run(case):
     import time
     t0 = time.process_time()
     out = refcheck(case) if case["wrap"] == "refcheck" else run_case(case)
-    out.setdefault("stats", {})["cpu_s"] = time.process_time() - t0
+    if os.environ.get("VERIF_CPU_STAT"):       # development aid; keeps replays deterministic by default
+        out.setdefault("stats", {})["cpu_s"] = time.process_time() - t0
     return out
 
 
